@@ -217,11 +217,13 @@ func defaultStreamMapFilter[T any](key string, isr streamReader) (streamReader, 
 		if !ok_ {
 			return t, schema.ErrNoValue
 		}
-		vv, ok_ := v.(T)
+		// nil is a valid value of an interface-typed input (as for the invoke form, which hands it on);
+		// for any other T it is a mismatch like every other one, reported as an error
+		vv, ok_ := assertType[T](v)
 		if !ok_ {
 			return t, fmt.Errorf(
-				"[defaultStreamMapFilter]fail, key[%s]'s value type[%s] isn't expected type[%s]",
-				key, reflect.TypeOf(v).String(),
+				"[defaultStreamMapFilter]fail, key[%s]'s value type[%T] isn't expected type[%s]",
+				key, v,
 				generic.TypeOf[T]().String())
 		}
 		return vv, nil
